@@ -340,3 +340,90 @@ func (r *Run) Finish() int {
 	}
 	return 0
 }
+
+// exported is the serialised state a child process hands back to its parent.
+type exported struct {
+	Evaluations  int64                  `json:"evaluations"`
+	Distinct     []string               `json:"distinct"`
+	Samples      []interface{}          `json:"samples"`
+	Counters     map[string]int64       `json:"counters"`
+	Sets         map[string][]string    `json:"sets"`
+	Violations   []*Violation           `json:"violations"`
+	Inconclusive []string               `json:"inconclusive"`
+	Extra        map[string]interface{} `json:"extra"`
+}
+
+// Export writes the accumulated state to path (child side).
+func (r *Run) Export(path string) error {
+	r.mu.Lock()
+	defer r.mu.Unlock()
+	e := exported{Evaluations: r.evaluations, Samples: r.samples, Counters: r.counters, Inconclusive: r.inconclusive, Extra: r.extra, Sets: map[string][]string{}}
+	for k := range r.distinct {
+		e.Distinct = append(e.Distinct, k)
+	}
+	for name, s := range r.sets {
+		for m := range s {
+			e.Sets[name] = append(e.Sets[name], m)
+		}
+	}
+	for _, s := range r.vorder {
+		e.Violations = append(e.Violations, r.violations[s])
+	}
+	b, err := json.Marshal(e)
+	if err != nil {
+		return err
+	}
+	return os.WriteFile(path, b, 0o644)
+}
+
+// Import merges the state exported by a child (parent side). Violations were already printed
+// by the child.
+func (r *Run) Import(path string) error {
+	b, err := os.ReadFile(path)
+	if err != nil {
+		return err
+	}
+	var e exported
+	if err := json.Unmarshal(b, &e); err != nil {
+		return err
+	}
+	r.mu.Lock()
+	defer r.mu.Unlock()
+	r.evaluations += e.Evaluations
+	for _, k := range e.Distinct {
+		r.distinct[k] = struct{}{}
+	}
+	for _, s := range e.Samples {
+		if len(r.samples) < r.maxSamples {
+			r.samples = append(r.samples, s)
+		}
+	}
+	for k, v := range e.Counters {
+		r.counters[k] += v
+	}
+	for name, ms := range e.Sets {
+		s := r.sets[name]
+		if s == nil {
+			s = map[string]struct{}{}
+			r.sets[name] = s
+		}
+		for _, m := range ms {
+			s[m] = struct{}{}
+		}
+	}
+	for _, v := range e.Violations {
+		if _, dup := r.violations[v.Signature]; !dup {
+			r.violations[v.Signature] = v
+			r.vorder = append(r.vorder, v.Signature)
+			r.replayN++
+		}
+	}
+	r.inconclusive = append(r.inconclusive, e.Inconclusive...)
+	for k, v := range e.Extra {
+		r.extra[k] = v
+	}
+	return nil
+}
+
+// ReplayBase makes child replay file names unique.
+func (r *Run) ReplayBase(n int) { r.mu.Lock(); r.replayN = n; r.mu.Unlock() }
